@@ -179,6 +179,10 @@ class HashVarCase:
             for j, (f, d) in enumerate(self.vars):
                 with guard(b, 1 + j):
                     setattr(e, f"v{j}", e.mQ[e.r9 + b.in_off])
+                # a computed value: goes through the generator's spill
+                # temporary (Expression.get_address)
+                with guard(b, 8 + j):
+                    setattr(e, f"v{j}", e.mQ[e.r9 + b.in_off] + 1)
             for j in range(n):
                 for k in range(n):
                     if j != k:
@@ -230,6 +234,8 @@ class HashVarCase:
                 out.append(("pyset", j, v))
             for v in hv_values(f):
                 out.append(("progset", j, v & M64))
+            for v in hv_values(f)[:3]:
+                out.append(("progexpr", j, v & M64))
             for k in range(n):
                 if k != j:
                     out.append(("progcopy", j, k))
@@ -246,6 +252,9 @@ class HashVarCase:
         pkt = bytearray(self.b.pkt_len)
         if kind == "progset":
             pkt[SEL] = 1 + op[1]
+            struct.pack_into("<Q", pkt, self.b.in_off, op[2])
+        elif kind == "progexpr":
+            pkt[SEL] = 8 + op[1]
             struct.pack_into("<Q", pkt, self.b.in_off, op[2])
         else:
             pkt[SEL] = 16 + 4 * op[1] + op[2]
@@ -281,6 +290,8 @@ def hv_expected(vars_, cells, op):
         return ("ok",), tuple(cells)
     if op[0] == "progset":
         cells[op[1]] = op[2] & M64
+    elif op[0] == "progexpr":
+        cells[op[1]] = (op[2] + 1) & M64
     else:
         cells[op[1]] = cells[op[2]]
     return ("ret", 2), tuple(cells)
